@@ -164,13 +164,17 @@ Definition gov_mismatch (c : gov_case) : bool :=
 
 (* state = number of application writes; each stage that runs writes once *)
 Record recv_case := { rc_parse_ok : bool; rc_transfer_ok : bool; rc_hook_ok : bool;
-                      rc_obs_ack : bool; rc_obs_changed : bool }.
-Definition mk_recv_case p t h a ch : recv_case :=
-  {| rc_parse_ok := p; rc_transfer_ok := t; rc_hook_ok := h; rc_obs_ack := a; rc_obs_changed := ch |}.
+                      rc_panics : bool;      (* the follow-up panics on this packet (after the transfer module credited) *)
+                      rc_obs_class : Z;      (* 1 = success acknowledgement, 2 = error acknowledgement, 3 = the transaction failed *)
+                      rc_obs_changed : bool }.
+Definition mk_recv_case p t h (a : bool) ch : recv_case :=
+  {| rc_parse_ok := p; rc_transfer_ok := t; rc_hook_ok := h; rc_panics := false; rc_obs_class := if a then 1 else 2; rc_obs_changed := ch |}.
+Definition mk_recv_case_panic p t h cls ch : recv_case :=
+  {| rc_parse_ok := p; rc_transfer_ok := t; rc_hook_ok := h; rc_panics := true; rc_obs_class := cls; rc_obs_changed := ch |}.
 Definition recv_mismatch (c : recv_case) : bool :=
   let stage (ok : bool) (s : Z) : result Z := if ok then Ok (s + 1) else Err (s + 1) in
-  let (post, ok) := core_recv Z (rc_parse_ok c) (stage (rc_transfer_ok c)) (stage (rc_hook_ok c)) (fun s => s) (fun _ s => s) 0 in
-  negb (Bool.eqb ok (rc_obs_ack c) && Bool.eqb (negb (post =? 0)) (rc_obs_changed c)).
+  let (post, cls) := recv_tx Z (rc_parse_ok c) (stage (rc_transfer_ok c)) (stage (rc_hook_ok c)) (fun s => s) (fun _ s => s) (rc_panics c) 0 in
+  negb ((cls =? rc_obs_class c) && Bool.eqb (negb (post =? 0)) (rc_obs_changed c)).
 
 (* ---------------- SendToFx claim forwarded over IBC (no tolerated failure) ---------------- *)
 
